@@ -11,6 +11,7 @@ package main
 
 import (
 	"go/token"
+	"go/types"
 
 	"golang.org/x/tools/go/ssa"
 )
@@ -242,4 +243,127 @@ func (f *Frame) emitCopyLoop(cl *copyLoop) bool {
 	}
 	dst.root.addWrite(&Write{off: d.off, width: d.ln, kind: wCopy, val: s, pos: f.posStr(cl.store.Pos()), state: st, fn: f.fn})
 	return true
+}
+
+// stalePointers: a pointer to an element of a slice (&s[i]) that is kept (stored, put into a map,
+// carried round a loop) while the same slice variable can still be extended by append afterwards
+// points into the old backing array once append reallocates: writes through it are lost. Reports
+// the positions of such element addresses in fn.
+func stalePointers(fn *ssa.Function) []ssa.Instruction {
+	var out []ssa.Instruction
+	kept := func(v ssa.Value) bool {
+		seen := map[ssa.Value]bool{}
+		var walk func(v ssa.Value, depth int) bool
+		walk = func(v ssa.Value, depth int) bool {
+			if seen[v] || depth > 4 {
+				return false
+			}
+			seen[v] = true
+			refs := v.Referrers()
+			if refs == nil {
+				return false
+			}
+			for _, r := range *refs {
+				switch x := r.(type) {
+				case *ssa.Store:
+					if x.Val == v {
+						return true
+					}
+				case *ssa.MapUpdate:
+					if x.Value == v || x.Key == v {
+						return true
+					}
+				case *ssa.Phi:
+					if walk(x, depth+1) {
+						return true
+					}
+				case *ssa.MakeInterface:
+					if walk(x, depth+1) {
+						return true
+					}
+				}
+			}
+			return false
+		}
+		return walk(v, 0)
+	}
+	for _, b := range fn.Blocks {
+		for _, in := range b.Instrs {
+			ia, ok := in.(*ssa.IndexAddr)
+			if !ok {
+				continue
+			}
+			if _, isSlice := ia.X.Type().Underlying().(*types.Slice); !isSlice || !kept(ia) {
+				continue
+			}
+			// the web of values that are "the same slice variable"
+			web := map[ssa.Value]bool{}
+			var grow func(v ssa.Value, depth int)
+			grow = func(v ssa.Value, depth int) {
+				if v == nil || web[v] || depth > 8 {
+					return
+				}
+				web[v] = true
+				switch x := v.(type) {
+				case *ssa.Phi:
+					for _, e := range x.Edges {
+						grow(e, depth+1)
+					}
+				case *ssa.Call:
+					if bi, ok := x.Common().Value.(*ssa.Builtin); ok && bi.Name() == "append" && len(x.Common().Args) > 0 {
+						grow(x.Common().Args[0], depth+1)
+					}
+				case *ssa.UnOp:
+					if al, ok := x.X.(*ssa.Alloc); ok && x.Op == token.MUL && al.Referrers() != nil {
+						for _, r := range *al.Referrers() {
+							switch y := r.(type) {
+							case *ssa.Store:
+								if y.Addr == ssa.Value(al) {
+									grow(y.Val, depth+1)
+								}
+							case *ssa.UnOp:
+								grow(y, depth+1)
+							}
+						}
+					}
+				}
+				if refs := v.Referrers(); refs != nil {
+					for _, r := range *refs {
+						switch y := r.(type) {
+						case *ssa.Phi:
+							grow(y, depth+1)
+						case *ssa.Call:
+							if bi, ok := y.Common().Value.(*ssa.Builtin); ok && bi.Name() == "append" && len(y.Common().Args) > 0 && y.Common().Args[0] == v {
+								grow(y, depth+1)
+							}
+						case *ssa.Store:
+							if al, ok := y.Addr.(*ssa.Alloc); ok && y.Val == v && al.Referrers() != nil {
+								for _, r2 := range *al.Referrers() {
+									if ld, ok := r2.(*ssa.UnOp); ok {
+										grow(ld, depth+1)
+									}
+								}
+							}
+						}
+					}
+				}
+			}
+			grow(ia.X, 0)
+			for v := range web {
+				ap, ok := v.(*ssa.Call)
+				if !ok {
+					continue
+				}
+				if bi, ok := ap.Common().Value.(*ssa.Builtin); !ok || bi.Name() != "append" {
+					continue
+				}
+				// can this append run after the element address was taken?
+				if ap.Block() == ia.Block() && instrBefore(ia, ap) || blockReaches(ia.Block(), ap.Block()) {
+					out = append(out, ia)
+					break
+				}
+			}
+		}
+	}
+	return out
 }
